@@ -416,6 +416,7 @@ func checkC16(r *Result, rng *rand.Rand, thorough bool) {
 	}
 	limiterFollowsUpdate(r)
 	midDrainEveryProcedure(r)
+	policyValueFrozenAtUpdate(r)
 	compareWithModel(r, "drain", cases, impl, nil)
 }
 
@@ -489,4 +490,56 @@ func midDrainEveryProcedure(r *Result) {
 	case <-time.After(3 * time.Second):
 	}
 	e.s.Close()
+}
+
+// policyValueFrozenAtUpdate: "every later request is judged under the new policy" — the policy that was handed to the
+// update, as it was when the update returned. A caller that re-uses the value it passed (its AllowedIPs slice, its
+// RateLimiterConfig) while preparing the next policy, or one that is then rejected, changes nothing: there was no
+// drain and no swap.
+func policyValueFrozenAtUpdate(r *Result) {
+	fs := NewRefFS()
+	s, err := newSrv(fs, absnfs.ExportOptions{})
+	must(err)
+	defer s.Close()
+	admitted := func(ip string) bool {
+		s.IP = ip
+		rep := s.Call(progNFS, 3, 0, rootCred(), nil)
+		return rep.Err == nil && rep.Status == 0
+	}
+	cur := s.NFS.GetExportOptions()
+	ips := []string{"192.0.2.10", "192.0.2.11"}
+	rl := absnfs.DefaultRateLimiterConfig()
+	pol := absnfs.PolicyOptions{Squash: cur.Squash, AllowedIPs: ips, RateLimitConfig: &rl}
+	must(s.NFS.UpdatePolicyOptions(pol))
+	ops := []string{"UpdatePolicyOptions(AllowedIPs=[192.0.2.10 192.0.2.11])"}
+	r.count("policy-value-frozen")
+	r.noteCase("policy-value-frozen", true)
+	if !admitted("192.0.2.10") || admitted("198.51.100.20") {
+		r.violate(Violation{Class: "C16/policy-not-applied", What: "after UpdatePolicyOptions returned, requests are not judged under the AllowedIPs it installed", Ops: ops})
+		return
+	}
+	// the caller re-uses its slice and its limiter configuration for the next policy …
+	ips[0] = "198.51.100.20"
+	rl.GlobalRequestsPerSecond = 1
+	ops = append(ops, "caller overwrites its own slice element 0 with 198.51.100.20 (no update call)")
+	if !admitted("192.0.2.10") || admitted("198.51.100.20") {
+		r.violate(Violation{Class: "C16/policy-changed-without-update", What: "the policy requests are judged under changed although no update ran (no drain, no swap): the installed policy shares memory with the value the caller passed", Ops: ops})
+		return
+	}
+	// … including one that is then rejected
+	ips2 := []string{"203.0.113.5"}
+	bad := absnfs.PolicyOptions{Squash: "all", AllowedIPs: ips2}
+	if cur.Squash == "all" {
+		bad.Squash = "root"
+	}
+	if err := s.NFS.UpdatePolicyOptions(bad); err == nil {
+		r.Notes = append(r.Notes, "policy-value-frozen: an update changing Squash was accepted")
+	}
+	ops = append(ops, "UpdatePolicyOptions(Squash changed, AllowedIPs=[203.0.113.5]) -> rejected")
+	if !admitted("192.0.2.10") || admitted("203.0.113.5") {
+		r.violate(Violation{Class: "C16/rejected-update-took-effect", What: "after a REJECTED update, requests are judged under the rejected policy", Ops: ops})
+	}
+	if got := s.NFS.GetExportOptions().AllowedIPs; len(got) != 2 || got[0] != "192.0.2.10" {
+		r.violate(Violation{Class: "C16/policy-changed-without-update", What: fmt.Sprintf("GetExportOptions reports AllowedIPs=%v after the caller changed its own slice", got), Ops: ops})
+	}
 }
